@@ -136,13 +136,31 @@ def _line_cb(code, line):
         s.line_event(code, line)
 
 
-def install():
+def focus_code_objects():
+    """Only the enqueue / elect-the-drainer / drain / release region (fewer scheduling points, so that
+    deeper preemption bounds become affordable)."""
+    import statemachine.engines.base as base
+    import statemachine.engines.sync as sync
+
+    out = []
+    for cls, names in ((getattr(sync, "SyncEngine", None), ("processing_loop",)), (getattr(base, "BaseEngine", None), ("put",))):
+        for n in names:
+            f = getattr(cls, "__dict__", {}).get(n)
+            c = getattr(f, "__code__", None)
+            if c is not None:
+                out.append(c)
+    return out or dispatch_code_objects()
+
+
+def install(focus=False):
     if _active["installed"]:
         return
     mon = sys.monitoring
     mon.use_tool_id(TOOL, "vmon-sched")
     mon.register_callback(TOOL, mon.events.LINE, _line_cb)
-    for code in dispatch_code_objects():
+    codes = focus_code_objects() if focus else dispatch_code_objects()
+    _active["codes"] = codes
+    for code in codes:
         mon.set_local_events(TOOL, code, mon.events.LINE)
     _active["installed"] = True
 
@@ -151,7 +169,7 @@ def uninstall():
     if not _active["installed"]:
         return
     mon = sys.monitoring
-    for code in dispatch_code_objects():
+    for code in _active.get("codes") or dispatch_code_objects():
         mon.set_local_events(TOOL, code, 0)
     mon.register_callback(TOOL, mon.events.LINE, None)
     mon.free_tool_id(TOOL)
